@@ -733,8 +733,13 @@ func (ex *Exec) pbMerge(dst, src *PRMsg) {
 			for i := 0; i < ssv.Len; i++ {
 				add = append(add, ex.cloneGoElem(f, ex.load(ssv.Arr.Kids[ssv.Off+i])))
 			}
+			// protobuf-go appends the elements one at a time (reflection List.Append), which decides the capacity the
+			// destination slice ends up with - and spare capacity decides what later in-place inserts can alias
 			dsv, _ := dst.slot(f).V.(SliceV)
-			ex.store(dst.slot(f), ex.appendVals(ex.cur, dsv, ex.elemType(f), add))
+			for _, a := range add {
+				dsv = ex.appendVals(ex.cur, dsv, ex.elemType(f), []Value{a}).(SliceV)
+			}
+			ex.store(dst.slot(f), dsv)
 		case f.Oneof != "":
 			w := ex.oneofWrapper(src, f)
 			if w == nil {
